@@ -72,4 +72,71 @@ theorem labelled_rstrip (L : Layout) (cells : List (Align × Str)) (label : Str)
     rstrip (ljust 60 (renderA L cells) ++ label) = ljust 60 (renderA L cells) ++ label :=
   rstrip_append_clean hc hne
 
+
+/-! ### `read_data` over a group of lines whose effects are known -/
+
+/-- the effects of a group of lines applied in order -/
+def runFx {S} : List (S → Except Err S) → S → Except Err S
+  | [], s => pure s
+  | f :: fs, s =>
+    match f s with
+    | .ok s' => runFx fs s'
+    | .error e => .error e
+
+theorem runFx_append {S} (a b : List (S → Except Err S)) (s : S) :
+    runFx (a ++ b) s = match runFx a s with
+      | .ok s' => runFx b s'
+      | .error e => .error e := by
+  induction a generalizing s with
+  | nil => rfl
+  | cons f fs ih =>
+    simp only [List.cons_append, runFx]
+    cases f s with
+    | error e => rfl
+    | ok s' => exact ih s'
+
+/-- **Group lemma.**  A run of lines of which only the last one satisfies the end marker (whatever the
+next line is): `read_data` applies their effects in order, resets the cache and goes on with the
+repeated parser and line number 0 — also when the file ends there. -/
+theorem readData_group {S} (first rest : ParserDef S) (reset : S → S) (inFirst : Bool)
+    (g : List (Str × (S → Except Err S))) (last : Str × (S → Except Err S)) (more : List Str)
+    (heff : ∀ x ∈ g ++ [last], ∀ n s, parseLine (if inFirst then first else rest) (rstrip x.1) n s = x.2 s)
+    (hno : ∀ x ∈ g, ∀ n nx, (if inFirst then first else rest).endMarker (rstrip x.1) n nx = false)
+    (hend : ∀ n nx, (if inFirst then first else rest).endMarker (rstrip last.1) n nx = true) :
+    ∀ (n : Nat) (s : S),
+    readData first rest reset ((g ++ [last]).map (·.1) ++ more) inFirst n s =
+      match runFx ((g ++ [last]).map (·.2)) s with
+      | .error e => .error e
+      | .ok s' => readData first rest reset more false 0 (reset s') := by
+  induction g with
+  | nil =>
+    intro n s
+    have h1 := heff last (by simp) (n + 1) s
+    simp only [List.nil_append, List.map_cons, List.map_nil, List.cons_append, readData, h1, runFx]
+    cases hl : last.2 s with
+    | error e => rfl
+    | ok s' =>
+      simp only
+      cases more with
+      | nil => simp [readData, runFx, pure, Except.pure]
+      | cons nx more' => simp [hend, runFx, pure, Except.pure]
+  | cons x g ih =>
+    intro n s
+    have h1 := heff x (by simp) (n + 1) s
+    have ih' := ih (fun y hy => heff y (by simp at hy ⊢; rcases hy with h | h; exact Or.inr (Or.inl h); exact Or.inr (Or.inr h)))
+      (fun y hy => hno y (by simp [hy]))
+    simp only [List.cons_append, List.map_cons, readData, h1, runFx]
+    cases hx : x.2 s with
+    | error e => rfl
+    | ok s' =>
+      simp only
+      have hne : (List.map (fun x => x.1) (g ++ [last]) ++ more) ≠ [] := by simp
+      cases hm : (List.map (fun x => x.1) (g ++ [last]) ++ more) with
+      | nil => exact absurd hm hne
+      | cons nx rest' =>
+        simp only [hno x (by simp)]
+        rw [← hm]
+        simp only [Bool.false_eq_true, if_false]
+        exact ih' (n + 1) s'
+
 end Midgard.ChainParser
